@@ -29,6 +29,8 @@ def run(m):
     r = subprocess.run(["./check", m["pid"], m.get("tier", "quick")], cwd=VERIF, env=env, stdout=subprocess.PIPE, stderr=subprocess.STDOUT, text=True)
     sig = [l.strip() for l in r.stdout.splitlines() if l.strip().startswith("signature:")]
     res = {0: "MISSED", 1: "caught", 2: "BROKEN"}.get(r.returncode, str(r.returncode))
+    if r.returncode == 0 and m.get("expect"):
+        res = "not-caught (expected: %s)" % m["expect"]
     if r.returncode == 2:
         open(os.path.join(ROOT, name + ".log"), "w").write(r.stdout)
     shutil.rmtree(d, ignore_errors=True)
